@@ -29,23 +29,27 @@ Builtins == {"range", "new", "type", "len", "del", "add", "concat", "now", "rand
 \* outcome class where the reference fixes it
 Class(fn, a) ==
   LET n == Len(a) IN
-  CASE fn = "len" -> IF n = 1 /\ Kind(a[1]) \in {"list", "map"} THEN "value" ELSE "error"
+  CASE fn = "len" -> IF n >= 1 /\ Kind(a[1]) \in {"list", "map"} THEN "value" ELSE "error"      \* (surplus arguments are ignored)
     [] fn = "type" -> IF n >= 1 THEN "value" ELSE "error"
     [] fn = "raise" -> "error"                                            \* raise never yields a value
     [] fn = "concat" -> IF n >= 2 /\ \A j \in 1..n : Kind(a[j]) = "list" THEN "value" ELSE IF n < 2 \/ \E j \in 1..n : Kind(a[j]) # "list" THEN "error" ELSE "any"
     [] fn = "del" -> IF n # 2 THEN "error"
                      ELSE IF Kind(a[1]) = "map" THEN "value"
-                     ELSE IF Kind(a[1]) = "list" THEN (IF a[2] \in {"0", "1", "-1"} /\ IntVal(a[2]) >= 0 /\ IntVal(a[2]) < ListLen(a[1]) THEN "value" ELSE "error")
+                     ELSE IF Kind(a[1]) = "list" THEN (IF a[2] \notin {"0", "1", "-1"} THEN (IF Kind(a[2]) \in {"num", "str"} THEN "any" ELSE "error")
+                                                      ELSE IF IntVal(a[2]) >= 0 /\ IntVal(a[2]) < ListLen(a[1]) THEN "value" ELSE "error")
                      ELSE "error"
     [] fn = "add" -> IF n < 2 \/ n > 3 \/ Kind(a[1]) # "list" THEN "error"
                      ELSE IF n = 2 THEN "value"
-                     ELSE IF a[3] \in {"0", "1", "-1"} /\ IntVal(a[3]) >= 0 /\ IntVal(a[3]) <= ListLen(a[1]) THEN "value" ELSE "error"
+                     ELSE IF a[3] \notin {"0", "1", "-1"} THEN (IF Kind(a[3]) \in {"num", "str"} THEN "any" ELSE "error")
+                     ELSE IF IntVal(a[3]) >= 0 /\ IntVal(a[3]) <= ListLen(a[1]) THEN "value" ELSE "error"
     [] fn = "new" -> IF n >= 1 /\ Kind(a[1]) = "map" THEN "any" ELSE "error"
     [] OTHER -> "any"
 
 Vec(n) == [1..n -> Vals]
 BuiltinCases == {[k |-> "builtin", fn |-> fn, args |-> a, op |-> "", exp |-> Class(fn, a)] :
                    fn \in Builtins, a \in Vec(0) \cup Vec(1) \cup Vec(2)}
+                \cup {[k |-> "builtin", fn |-> fn, args |-> a, op |-> "", exp |-> Class(fn, a)] :
+                   fn \in {"add", "concat", "range", "raise", "new", "addEvent"}, a \in {v \in Vec(3) : v[1] \in {"list", "elist", "map", "str", "1"}}}
 
 BinOps == {"*", "/", "//", "%", "+", "-", ">=", "<=", "!=", "==", ">", "<", "like", "in", "notin", "hasprefix", "hassuffix", "and", "or"}
 OpClass(op, l, r) ==
